@@ -102,10 +102,10 @@ func (l Line3D) ClosestTimeOnLine(p vector3.Float64) float64 {
 }
 
 func (l Line3D) ClosestPointOnLine(p vector3.Float64) vector3.Float64 {
-	// p1p2Dist := l.p1.DistanceSquared(l.p2)
-	// if p1p2Dist == 0.0 {
-	// return l.p1
-	// }
+	// A line who's points coincide has no heading to normalize
+	if l.p1 == l.p2 {
+		return l.p1
+	}
 
 	// Consider the line extending the segment, parameterized as v + t (w - v).
 	// We find projection of point p onto the line.
